@@ -31,7 +31,8 @@ pub fn prop() -> Prop {
     }
 }
 
-pub const OPS: [&str; 12] = ["format", "format_flat", "tree_format(true)", "tree_format(false)", "diagnostic_annotated", "hex", "register_tags", "known_value_by_name", "known_value_name", "function_name", "parameter_name", "tag_name"];
+pub const OPS: [&str; 13] = ["format", "format_flat", "tree_format(true)", "tree_format(false)", "diagnostic_annotated", "hex", "register_tags", "known_value_by_name", "known_value_name", "function_name", "parameter_name", "tag_name", "register_custom_tag"];
+pub const CUSTOM_TAG: u64 = 77777;
 
 #[derive(Clone, Debug)]
 pub struct Step {
@@ -65,7 +66,7 @@ fn gen_env(src: &mut Src) -> Envelope {
             // The call that formats it may panic; no OTHER call may be affected (no poisoned lock).
             Envelope::new(CBOR::to_tagged_value(1u64, 1.0e300))
         }
-        _ => Envelope::new(CBOR::to_tagged_value(*src.pick(&[100u64, 40001, 40300, 32]), "tagged")),
+        _ => Envelope::new(CBOR::to_tagged_value(*src.pick(&[100u64, 40001, 40300, 32, CUSTOM_TAG, CUSTOM_TAG]), "tagged")),
     };
     let mut e = subject;
     for _ in 0..src.below(4) {
@@ -99,7 +100,7 @@ pub fn decode_program(data: &[u8]) -> Program {
         let n = 1 + src.below(6);
         let mut steps = Vec::new();
         for _ in 0..n {
-            let op = src.weighted(&[14, 10, 10, 8, 8, 6, 10, 8, 8, 6, 6, 6]);
+            let op = src.weighted(&[14, 10, 10, 8, 8, 6, 10, 8, 8, 6, 6, 6, 7]);
             steps.push(Step { op, env: src.below(n_env), arg: src.below(8), jitter_us: src.below(51) as u64 });
         }
         threads.push(steps);
@@ -143,6 +144,15 @@ pub fn run_step(e: &Envelope, s: &Step) -> String {
             let store = b.as_ref().unwrap();
             store.name(&Parameter::from([1u64, 2, 3, 4, 5, 99, 12, 0][s.arg % 8]))
         }
+        12 => {
+            // a caller's own registration in the global format context (what register_tags() does for the
+            // standard tags): must survive whatever other threads do, in particular a racing register_tags()
+            bc_envelope::with_format_context_mut!(|context: &mut bc_envelope::FormatContext| {
+                dcbor::TagsStore::insert(context.tags_mut(), dcbor::Tag::new(CUSTOM_TAG, "verifCustom"));
+                dcbor::TagsStore::set_summarizer(context.tags_mut(), CUSTOM_TAG, Arc::new(|_untagged: CBOR| Ok("<<custom summary>>".to_string())));
+            });
+            "custom-registered".to_string()
+        }
         _ => {
             let vals = [200u64, 201, 40000, 40001, 1, 40012, 77777, 24];
             dcbor::with_tags!(|tags: &dcbor::TagsStore| dcbor::TagsStoreTrait::name_for_value(tags, vals[s.arg % vals.len()]))
@@ -168,14 +178,15 @@ pub fn child_main(mode: &str, hex_program: &str) -> i32 {
     let prog = decode_program(&data);
     let envs_bytes: Vec<Vec<u8>> = prog.envs.iter().map(|e| e.to_cbor_data()).collect();
     match mode {
-        "solo-unreg" | "solo-reg" => {
+        "solo-unreg" | "solo-reg" | "solo-unreg-custom" | "solo-reg-custom" => {
             // Reference results: each call "run alone". The registries have three states a call can find:
             // S0 nothing initialised, S1 format context initialised (which registers the bc-components
             // tags in dcbor's global store), S2 register_tags() done. Only the dcbor tag-name lookup
             // can tell S0 from S1, so it is evaluated before anything else (S0) and again at the end (S1).
-            if mode == "solo-reg" {
+            if mode.starts_with("solo-reg") {
                 bc_envelope::register_tags();
             }
+            let with_custom = mode.ends_with("-custom");
             let emit = |ti: usize, si: usize, s: &Step| {
                 let r = std::panic::catch_unwind(|| run_step(&prog.envs[s.env], s));
                 match r {
@@ -191,11 +202,16 @@ pub fn child_main(mode: &str, hex_program: &str) -> i32 {
                     // make sure the format context is initialised (S1) before the second tag-name pass
                     let _ = std::panic::catch_unwind(|| Envelope::new("init").format());
                 }
+                if pass == 1 && with_custom {
+                    // the custom registration is in place before any formatting call (it initialises the
+                    // format context, so the S0 pass of the tag-name lookups comes first)
+                    let _ = run_step(&prog.envs[0], &Step { op: 12, env: 0, arg: 0, jitter_us: 0 });
+                }
                 for (ti, steps) in prog.threads.iter().enumerate() {
                     for (si, s) in steps.iter().enumerate() {
-                        if s.op == 6 {
+                        if s.op == 6 || s.op == 12 {
                             if pass == 0 {
-                                println!("R {} {} {}", ti, si, hex::encode("registered"));
+                                println!("R {} {} {}", ti, si, hex::encode(if s.op == 6 { "registered" } else { "custom-registered" }));
                             }
                             continue;
                         }
@@ -344,6 +360,10 @@ pub fn run(data: &[u8], ctx: &mut Ctx) -> Outcome {
     let hexp = hex::encode(data);
     ctx.fingerprint(data);
     let has_register = prog.threads.iter().flatten().any(|s| s.op == 6);
+    let has_custom = prog.threads.iter().flatten().any(|s| s.op == 12);
+    if has_custom {
+        ctx.class("custom-tag-registration");
+    }
     let class = if prog.pre_register { "registered-before-barrier" } else if has_register { "register-racing" } else { "never-registered" };
     ctx.class(class);
     ctx.class(&format!("threads:{}", match prog.threads.len() { 2..=3 => "2-3", 4..=7 => "4-7", _ => "8-16" }));
@@ -368,7 +388,7 @@ pub fn run(data: &[u8], ctx: &mut Ctx) -> Outcome {
     // reference runs
     let refs: Vec<BTreeMap<(usize, usize), Vec<(char, String)>>> = {
         let mut v = Vec::new();
-        for mode in ["solo-unreg", "solo-reg"] {
+        for mode in ["solo-unreg", "solo-reg", "solo-unreg-custom", "solo-reg-custom"] {
             match run_child(mode, &hexp) {
                 ChildResult::Done(lines) => v.push(parse_results(&lines)),
                 ChildResult::Deadlock => return fail(ctx, "reference", "C20/solo-deadlock", format!("the {} reference run (one thread) deadlocked", mode)),
@@ -404,7 +424,7 @@ pub fn run(data: &[u8], ctx: &mut Ctx) -> Outcome {
         // "panics alone" = panics in both solo runs with a message of its own (a PoisonError is never a
         // call's own panic: a fresh process has no poisoned lock unless an earlier call left one behind)
         let own_panic = |r: &BTreeMap<(usize, usize), Vec<(char, String)>>| r.get(&(*t, *s)).map(|v| v.iter().any(|x| x.0 == 'P' && !x.1.contains("PoisonError"))).unwrap_or(false);
-        let solo_panics = own_panic(&refs[0]) && own_panic(&refs[1]);
+        let solo_panics = refs.iter().all(|r| own_panic(r));
         if *tag == 'P' && solo_panics && !text.contains("PoisonError") {
             // the call panics when run alone as well (dependency defect K6): not a concurrency matter
             ctx.class("call-that-panics-alone");
@@ -418,21 +438,27 @@ pub fn run(data: &[u8], ctx: &mut Ctx) -> Outcome {
             let key = if text.contains("PoisonError") { "C20/poisoned-lock" } else { "C20/panic" };
             return fail(ctx, "panic", key, format!("{} in thread {} panicked under concurrency: {}", OPS[step.op], t, text));
         }
-        let unreg: Vec<String> = refs[0].get(&(*t, *s)).map(|v| v.iter().map(|x| x.1.clone()).collect()).unwrap_or_default();
-        let reg: Vec<String> = refs[1].get(&(*t, *s)).map(|v| v.iter().map(|x| x.1.clone()).collect()).unwrap_or_default();
-        let ok = if prog.pre_register {
-            reg.contains(text)
-        } else if has_register {
-            reg.contains(text) || unreg.contains(text)
-        } else {
-            unreg.contains(text)
-        };
+        let results_of = |r: &BTreeMap<(usize, usize), Vec<(char, String)>>| -> Vec<String> { r.get(&(*t, *s)).map(|v| v.iter().map(|x| x.1.clone()).collect()).unwrap_or_default() };
+        // which registry states may this call legitimately find?
+        let reg_states: &[bool] = if prog.pre_register { &[true] } else if has_register { &[false, true] } else { &[false] };
+        let own_custom_before = prog.threads[*t][..*s].iter().any(|x| x.op == 12);
+        let custom_states: &[bool] = if own_custom_before { &[true] } else if has_custom { &[false, true] } else { &[false] };
+        let mut allowed: Vec<String> = Vec::new();
+        for r in reg_states {
+            for cu in custom_states {
+                let idx = (*r as usize) + 2 * (*cu as usize);
+                allowed.extend(results_of(&refs[idx]));
+            }
+        }
+        let unreg = results_of(&refs[0]);
+        let reg = results_of(&refs[1]);
+        let ok = allowed.contains(text);
         if !ok {
             return fail(
                 ctx,
                 "result",
                 &format!("C20/result-differs/{}", OPS[step.op]),
-                format!("{} on envelope #{} in thread {} returned {:?} under concurrency; alone it returns {:?} (tags registered) / {:?} (not registered); program class {}", OPS[step.op], step.env, t, text, reg, unreg, class),
+                format!("{} on envelope #{} in thread {} returned {:?} under concurrency; alone it returns {:?} (tags registered) / {:?} (not registered); acceptable here: {:?}; program class {}{}", OPS[step.op], step.env, t, text, reg, unreg, allowed, class, if own_custom_before { ", after this thread's own custom tag registration" } else { "" }),
             );
         }
     }
